@@ -180,6 +180,10 @@ func classify(err error, basic bool) (string, int) {
 // Exec runs one operation on the real application. Model-compared operations emit a case.
 func (h *Hist) Exec(op Op) Op {
 	c := h.c
+	// the operation is part of the replay from the moment it starts (monitors run inside)
+	h.ops = append(h.ops, op)
+	idx := len(h.ops) - 1
+	defer func() { h.ops[idx] = op }()
 	sms := stakingkeeper.NewMsgServerImpl(c.App.StakingKeeper.Keeper)
 	gms := fxgovkeeper.NewMsgServerImpl(c.App.GovKeeper)
 	try := func(f func(ctx sdk.Context) error) error { return c.Try(f) }
@@ -375,7 +379,6 @@ func (h *Hist) Exec(op Op) Op {
 	default:
 		panic("unknown op " + op.Kind)
 	}
-	h.ops = append(h.ops, op)
 	return op
 }
 
